@@ -148,7 +148,7 @@ impl RunResult {
             }
             s.push_str(&e.kind);
             for (k, v) in &e.kv {
-                if k == "pid" || k == "heap" || k == "status" {
+                if k == "pid" || k == "heap" || k == "status" || (e.kind == "WAIT-RET" && k == "ret") || (e.kind == "E" && (k == "req" || k == "ret")) {
                     continue;
                 }
                 s.push(' ');
